@@ -235,7 +235,10 @@ class Memory:
             if c is not None and p + c[0] <= end:
                 items.append((p - soff, c[0], c[1])); p += c[0]; continue
             b = self._byte(so, p)
-            if b is not None: items.append((p - soff, 1, b))
+            if b is None:
+                # copying an uninitialised byte: name it once so that source and copy stay equal (still tainted 'undef!')
+                b = self.fresh_undef(so, p); so = self.objs[so.base]; cells = so.cells
+            items.append((p - soff, 1, b))
             p += 1
         do, doff = self.resolve(dst, n, True)
         self._punch(do, doff, n)
